@@ -139,7 +139,12 @@ def run_twin(case, compare_sections=('params', 'rg', 'flags', 'grads'), probe_fo
         last_fault = op['op'] + (':mid' if sub != 0 else '')
         fault_since_state_op = True
         try:
-            W.apply_observer(S, op)
+            if op.get('no_grad'):
+                # reporting code often runs under torch.no_grad()
+                with torch.no_grad():
+                    W.apply_observer(S, op)
+            else:
+                W.apply_observer(S, op)
             return True
         except Exception as e:
             # an observer that raises is not by itself a C18 violation (whether export succeeds is the
